@@ -89,6 +89,8 @@ pub enum EOp {
     /// when the flag is false, public input otherwise) in a fresh constraint system, then `value()`. For an
     /// invalid encoding there is no element to hand out (an error or a panic is fine; the identity is pooled)
     GadgetValue(Hex, bool),
+    /// Sum over an iterator of AffinePoint values (true: of references) of these entries
+    SumOfAffine(Vec<usize>, bool),
 }
 
 #[derive(Clone, Debug, Serialize, Deserialize, PartialEq, Eq)]
